@@ -129,6 +129,10 @@ def _x_Path(ex, args, kwargs, lineno):
     if len(args) != 1 or kwargs:
         raise Unsupported("Path() with other than one argument")
     a = args[0]
+    from pyvc.ty import VOpt
+    if isinstance(a, VOpt):
+        ex.safety(z3.Not(a.isnone), "Path(None)", lineno)
+        a = a.val
     if isinstance(a, VOpaque) and a.ty is PathT:
         return a
     if isinstance(a, VStr):
@@ -145,6 +149,26 @@ def _x_div(ex, args, kwargs, lineno):
     ex.ufs_used.add("path_div")
     q = _div(p.t, s.t)
     return VOpaque(q, PathT)
+
+
+# resolve() / .parent: same uninterpreted symbols as contracts/c06_cli.py (uf.path_resolved) and contracts/c05_parse.py
+# (uf.path_parent), whose handlers are registered first; the handlers below are fallbacks with the same meaning
+_resolve = z3.Function("uf.path_resolved", PathT.sort(), PathT.sort())
+_parent = z3.Function("uf.path_parent", PathT.sort(), PathT.sort())
+path_resolve = uf("path_resolved", [PathT], PathT, concrete=lambda p: _pl.Path(p).resolve())
+path_parent = uf("path_parent", [PathT], PathT, concrete=lambda p: _pl.PurePosixPath(p).parent)
+
+
+@_reg("Path.resolve")
+def _x_resolve(ex, args, kwargs, lineno):
+    ex.ufs_used.add("path_resolved")
+    return VOpaque(_resolve(args[0].t), PathT)
+
+
+@_reg("Path.@parent")
+def _x_parent(ex, args, kwargs, lineno):
+    ex.ufs_used.add("path_parent")
+    return VOpaque(_parent(args[0].t), PathT)
 
 
 # ------------------------------------------------------------------------------------------------ spec helpers
@@ -201,4 +225,11 @@ def rel_link(p, root):
 def abs_link(p):
     """Trusted (POSIX): a path is absolute iff its first component is the anchor '/'."""
     assert path_is_abs(p) == (len(path_parts(p)) > 0 and path_parts(p)[0] == "/")
+    return True
+
+
+def resolve_facts(p):
+    """Trusted: p.resolve() is absolute, and so is its parent (checked natively on replay)."""
+    assert path_is_abs(path_resolve(p))
+    assert path_is_abs(path_parent(path_resolve(p)))
     return True
